@@ -18,6 +18,7 @@ def flushOf (f : Nat) (acc : List Expr) (cur : List Tok) : Except Err (List Expr
   if cur.isEmpty then .ok acc else
     match pCompute d f cur with
     | .ok (e, []) => .ok (acc ++ [e]) | .ok (_, _ :: _) => .error .parse | .error e => .error e
+omit S in
 theorem pSplit_succ (f : Nat) (acc : List Expr) (cur ts : List Tok) : pSplit d (f+1) acc cur ts =
     match ts with
     | [] => flushOf d f acc cur
